@@ -41,8 +41,10 @@ META = {
     "note": "theorems are over the reals (rounding outside the proofs); meshes, height fields, SDFs and flexes are not "
             "modelled (box meshes are exercised by the oracle only); the per-geom distances and the bounding-sphere / "
             "bounding-angle culling of mj_multiRay are inputs of the hand model: soundness of the culling is a hypothesis of "
-            "multiRay_eq_map_ray and is sampled by the oracle, which finds it violated on the current tree (keys "
-            "c16:multiray-body-sphere-center, c16:multiray-visual-geom-culled, c16:multiray-cutoff-rbound, c16:multiray-short-vec).",
+            "multiRay_eq_map_ray and is sampled by the oracle (every mj_multiRay/mj_ray difference is classified by recomputing the "
+            "body bounding-sphere test and reading mju_multiRayPrepare's flags): known findings c16:multiray-visual-geom-culled and "
+            "c16:multiray-short-vec remain on the tree; c16:multiray-body-sphere-center and c16:multiray-cutoff-rbound were fixed in "
+            "/repo (59e563301, 452b4058c) and their minimal replays are permanent regression inputs of the check.",
 }
 
 PLANE, HFIELD, SPHERE, CAPSULE, ELLIPSOID, CYLINDER, BOX, MESH = (E("mjGEOM_PLANE"), E("mjGEOM_HFIELD"), E("mjGEOM_SPHERE"),
@@ -616,6 +618,46 @@ def gen_scene_stream(ctx, nscene, nsrc, nray):
     return lines, meta
 
 
+# minimal replays of the four mj_multiRay findings, kept as permanent regression inputs (A and D were fixed in /repo by
+# 59e563301 and 452b4058c and must stay silent; B and C are recorded known findings and must keep their own keys)
+REGRESSIONS = [
+    ("A body-sphere centre", ["body 1 0", "set 1 pos 0 0 1", "set 1 quat 0.7071067811865476 0 0.7071067811865476 0", "joint 2 1",
+                              "geom 3 1", "set 3 type 2", "set 3 size 0.05", "set 3 density 100000",
+                              "geom 4 1", "set 4 type 6", "set 4 size 0.02 0.02 0.5", "set 4 pos 0 0 0.5", "set 4 density 1"],
+     [0.0], [0.9, 0.0, 3.0], [[0.0, 0.0, -1.0], [0.0, 0.0, -2.5]], 1e10),
+    ("B visual-only geom", ["body 1 0", "set 1 pos 0 0 1", "joint 2 1", "geom 3 1", "set 3 type 2", "set 3 size 0.05",
+                            "geom 4 1", "set 4 type 6", "set 4 size 0.05 0.05 0.05", "set 4 pos 0.5 0 0",
+                            "set 4 contype 0", "set 4 conaffinity 0"],
+     [0.0], [0.5, 0.0, 3.0], [[0.0, 0.0, -1.0]], 1e10),
+    ("C short direction", ["geom 1 0", "set 1 type 0", "set 1 size 5 5 0.1"],
+     [], [0.0, 0.0, 0.5], [[0.0, 0.0, -1e-9], [0.0, 0.0, -1.0]], 1e10),
+    ("D cutoff vs plane", ["geom 1 0", "set 1 type 0", "set 1 size 5 5 0.1"],
+     [], [3.0, 0.0, 0.5], [[0.0, 0.0, -1.0], [0.1, 0.0, -1.0]], 1.0),
+]
+
+
+def regression_stream():
+    lines, meta = [], []
+    for s, (name, desc, qpos, p, vs, cutoff) in enumerate(REGRESSIONS):
+        block = scene_block(desc, [])
+        lines += block
+        meta.append({"kind": "model", "scene": s, "block": block})
+        sl = ("state " + " ".join(repr(x) for x in qpos)).strip()
+        lines.append(sl)
+        meta.append({"kind": "state", "scene": s, "line": sl})
+        lines.append("scene")
+        meta.append({"kind": "scene", "scene": s})
+        for r, v in enumerate(vs):
+            rl = "ray %s %s 1 -1 -" % (" ".join(map(repr, p)), " ".join(map(repr, v)))
+            lines.append(rl)
+            meta.append({"kind": "ray", "scene": s, "src": 0, "ray": r, "line": rl, "pnt": p, "vec": v, "flg": 1, "bx": -1, "mask": "-"})
+        ml = "multi %s 1 -1 - %r %d %s" % (" ".join(map(repr, p)), cutoff, len(vs), " ".join(repr(x) for v in vs for x in v))
+        lines.append(ml)
+        meta.append({"kind": "multi", "scene": s, "src": 0, "line": ml, "pnt": p, "vecs": vs, "flg": 1, "bx": -1, "mask": "-",
+                     "cutoff": cutoff})
+    return lines, meta
+
+
 def parse_scene(out):
     out, btxt = out.split(" | ")
     bodies = []
@@ -706,8 +748,8 @@ def replay_obj(block, state_line, line, extra=None):
 
 
 # ------------------------------------------------------------------------------------------ the scene part of the check
-def run_scenes(ctx, impl, drv, nscene, nsrc, nray, dev, found, stats, max_report=4):
-    lines, meta = gen_scene_stream(ctx, nscene, nsrc, nray)
+def run_scenes(ctx, impl, drv, nscene, nsrc, nray, dev, found, stats, max_report=4, stream=None):
+    lines, meta = stream if stream is not None else gen_scene_stream(ctx, nscene, nsrc, nray)
     rc, outs, err = ctx.run_lines([impl], lines)
     # the harness answers one line per command; model blocks are one command
     if rc != 0 or len(outs) != len(meta):
@@ -1080,6 +1122,8 @@ def run(ctx):
     ctx.extra["elim_exhaustive_scope"] = ("bodyid {0,1,2} x matid {-1,0,2} x (geom alpha 0, material alpha 0, weld 0) x group "
                                           "{-3,-1,0..7,100} x flg_static x bodyexclude {-1,0,1,2} x 7 masks = 44352 lines, + 2000 random")
     # ---- scenes
+    run_scenes(ctx, impl, drv, 0, 0, 0, dev, found, stats, stream=regression_stream())
+    ctx.extra["regression_inputs"] = [r[0] for r in REGRESSIONS]
     if thorough:
         for chunk in range(10):          # chunked: the per-ray outputs of one chunk are held in memory
             run_scenes(ctx, impl, drv, 100, 6, 80, dev, found, stats)
